@@ -2556,3 +2556,32 @@ CASES += [
         }
         // no unsat clauses""")]),
 ]
+
+POLY = "src/util/semirings/polynomial_semiring_implementation.rs"
+CASES += [
+    # ------------------------------------------------------------------ LAW mul-pairs-complete (round 10: C07-r10m2)
+    dict(name="law-poly-mul-clamp-off-by-one", file=POLY, rule="LAW", props=["C13", "C07"], expect="Polynomial:mul-pairs-complete",
+         old="""            for j in 0..rhs.len {
+                if i + j < MAX_COEFFS {
+                    new_coeffs[i + j] =
+                        new_coeffs[i + j] + (self.coefficients[i] * rhs.coefficients[j]);
+                }
+            }""",
+         new="""            let j_end = rhs.len.min((MAX_COEFFS - 1).saturating_sub(i));
+            for j in 0..j_end {
+                new_coeffs[i + j] =
+                    new_coeffs[i + j] + (self.coefficients[i] * rhs.coefficients[j]);
+            }"""),
+    dict(name="law-poly-mul-clamp-hoisted-ok", file=POLY, rule="LAW", props=["C13", "C07"], expect=None,
+         old="""            for j in 0..rhs.len {
+                if i + j < MAX_COEFFS {
+                    new_coeffs[i + j] =
+                        new_coeffs[i + j] + (self.coefficients[i] * rhs.coefficients[j]);
+                }
+            }""",
+         new="""            let j_end = rhs.len.min(MAX_COEFFS.saturating_sub(i));
+            for j in 0..j_end {
+                new_coeffs[i + j] =
+                    new_coeffs[i + j] + (self.coefficients[i] * rhs.coefficients[j]);
+            }"""),
+]
